@@ -162,6 +162,8 @@ def register(R, tier="quick"):
     R.bounded_check("nested-bounded@C06", ["C06"], nfn(["C06-"]), bound=nested_bound,
                     note="NestedParent / NestedChildren return exactly the parents with a live matching child / the live children "
                          "of the matching parents, also after the groups went through optimize")
+    R.bounded_check("nested-bounded@C07", ["C07"], nfn(["C07-"]), bound=nested_bound,
+                    note="delete_by_query with a parent/child query deletes exactly the groups with a live matching child")
     R.bounded_check("nested-bounded@C01", ["C01"], nfn(["C06-"]), bound=nested_bound,
                     note="result sets of the parent/child queries against a group model")
     R.bounded_check("nested-bounded@C11", ["C11"], nfn(["C11-"]), bound=nested_bound,
